@@ -54,7 +54,7 @@ impl Check for C08 {
             .boxed()
     }
     fn rule(&self) -> String {
-        "random program of 1-3 rules mixing regular and irregular shapes (variables inside and outside arithmetic, intervals in heads / right of = / elsewhere, symbols and #inf/#sup next to arithmetic, choice heads with intervals, variables named N0 N1 N0_0) x random (H subset-of T) whose extents contain symbols, #inf and #sup at every argument position; oracle: mu() never panics and each of its formulas has the same exact HT truth value as the tau* formula of the same rule; each rule alone, if natural() accepts it, likewise (and agrees with the reference semantics of the rule); non-trivial = the rule is accepted by natural, fires in T and the verdicts are definite; labels = regular/irregular, operator classes".into()
+        "random program of 1-3 rules mixing regular and irregular shapes (variables inside and outside arithmetic, intervals in heads / right of = / elsewhere, symbols and #inf/#sup next to arithmetic, choice heads with intervals, variables named N0 N1 N0_0) x an interpretation (H subset-of T) that is random (extents contain symbols, #inf and #sup at every argument position) or guided (T = closure of the program over random atoms, usually minus one atom; H = T or T minus one atom); oracle: mu() never panics and each of its formulas has the same exact HT truth value as the tau* formula of the same rule; each rule alone, if natural() accepts it, likewise (and agrees with the reference semantics of the rule); non-trivial = the rule is accepted by natural, fires in T and the verdicts are definite; labels = regular/irregular, operator classes".into()
     }
     fn run(&self, case: &Case) -> Outcome {
         if case.program.rules.is_empty() {
@@ -67,8 +67,35 @@ impl Check for C08 {
         }
         let pool = program_pool(&case.program);
         let preds = program_preds(&case.program);
-        let (h, t) = g::build_interp(&case.raw, &preds, &[], &pool);
-        let mut labels = vec![];
+        let (mut h, mut t) = g::build_interp(&case.raw, &preds, &[], &pool);
+        // half of the interpretations are guided: T is the closure of the program over the random atoms
+        // (every rule satisfied) with one atom taken out again in most cases, H is T or T without one more
+        // atom - interpretations in which whether a rule holds hinges on a single atom
+        let selector: usize = case.raw.tuples.iter().flatten().flatten().map(|x| *x as usize).sum();
+        let mut guided = "random";
+        if selector % 2 == 1 {
+            if let Some(closed) = crate::asp_ref::closure(&case.program, &t, 300) {
+                let mut tt = closed;
+                for p in &preds {
+                    tt.preds.entry(p.clone()).or_default();
+                }
+                let atoms = tt.atoms();
+                if !atoms.is_empty() && (selector / 2) % 4 != 0 {
+                    let (k, tuple) = atoms[(selector / 8) % atoms.len()].clone();
+                    tt.preds.get_mut(&k).unwrap().remove(&tuple);
+                }
+                let mut hh = tt.clone();
+                let atoms = hh.atoms();
+                if !atoms.is_empty() && (selector / 2) % 3 == 0 {
+                    let (k, tuple) = atoms[(selector / 32) % atoms.len()].clone();
+                    hh.preds.get_mut(&k).unwrap().remove(&tuple);
+                }
+                h = hh;
+                t = tt;
+                guided = "closure";
+            }
+        }
+        let mut labels = vec![format!("interpretation={guided}")];
         let mut nontrivial = false;
         let mut keys = String::new();
         let mut definite = 0;
